@@ -258,3 +258,24 @@ PROPS["C16"] = {
         {"test": "^FuzzC16Decode$", "fuzz": True, "quick": {"shards": 1}, "thorough": {"shards": 1, "fuzztime": 300, "procs": 16, "timeout": 900}},
     ],
 }
+
+CONC_ASSUMPTIONS = COMMON_ASSUMPTIONS + [
+    "goroutine schedules are sampled (yields injected at lock-acquisition and commit points from a drawn seed widen them); a failure is reported with the recorded history, which porcupine re-judges deterministically",
+    "known findings excluded by construction and counted: READDIRPLUS in concurrent programs (KF1), moving a directory to another directory (KF2/KF3)",
+]
+
+PROPS["C03"] = {
+    "level": "exploration",
+    "technique": "generated concurrent programs (rapid) for 2-4 clients over a tiny shared namespace, executed with real goroutines (direct and over the RPC transport) with seeded yield injection at lock and commit points; linearizability decided by porcupine against a compact sequential model, with a final whole-state observation appended to every history",
+    "level_text": "Programs of 3-8 operations per client over three shared directories with three file names and two directory names each, and two shared regular files: create/remove races on the same names, renames over existing targets within and across directories (files), directory renames within a parent, concurrent write/truncate/read/getattr of one file (incl. truncations large enough for the background shrinker), LOOKUP and READDIR during updates; in half of the cases the inode numbers are arranged so that children are numbered below their directories (retry paths). Every reply (status, handle, file id, type, size incl. post-operation attributes, data, listing) and a final observation of every name and file must be explained by one sequential order that respects real-time order.",
+    "level_note": "Schedules are sampled, not enumerated. porcupine time-outs (none expected at this size) are counted, not judged. Hangs and panics are reported by the C06 and C11 checks.",
+    "rule": ("unit = one concurrent history. Non-trivial: at least two operations of different clients overlap in time and touch a common name or file (measured from the recorded stamps). distinct = FNV hash of the history."),
+    "assumptions": CONC_ASSUMPTIONS,
+    "required_classes": ["history_with_overlapping_conflicting_operations", "history_with_injected_yields", "history_with_children_numbered_below_parents", "history_with_shrinker_sized_truncations", "history_via_rpc",
+                         "history_with_a_client_held_at_a_lock_or_commit_point", "window_history_with_conflict_while_a_client_is_held", "window_history_on_a_full_disk", "enumerated_cases_in_which_the_pause_point_was_reached"],
+    "units": [
+        {"test": "^TestC03Linearizable$", "quick": {"checks": 400, "shards": 8}, "thorough": {"checks": 20000, "shards": 8, "timeout": 7200}},
+        {"test": "^TestC03Windows$", "quick": {"checks": 300, "shards": 8}, "thorough": {"checks": 25000, "shards": 8, "timeout": 7200}},
+        {"test": "^TestC03Enum$", "norapid": True, "quick": {"shards": 16}, "thorough": {"shards": 16, "timeout": 7200}},
+    ],
+}
